@@ -7,6 +7,34 @@ import subprocess
 ROOT = os.path.dirname(os.path.dirname(os.path.abspath(__file__)))
 
 CHECKS = {
+    "C14": ("exploration",
+            "exhaustive enumeration of all ordered dependency graphs on <=3 names (+dangling/duplicate variants) against a reachability/cycle reference",
+            "Every directed graph on <=3 task names as ordered dep lists, every target, 1-2 COND files, through the real TaskIndex, "
+            "end-to-end through cond run / --check under the virtual kernel (no spawn on error), and through whole-project validation in "
+            "every definition order.",
+            "Trusted: reference graph algorithms (DFS colouring). Bound: n<=3 exhaustively (n=4 edge sets in thorough).",
+            "DESIGN.md §4 C14"),
+    "C15": ("exploration",
+            "deviation-bounded enumeration (all single and pair deviations) of constructor arguments against a reference schema validator",
+            "All single/pair deviations of every documented constructor's parameters from a typed alphabet plus Python-error / include "
+            "cases, each through cond run --check and cond run in-process; acceptance must equal the reference validator and rejections "
+            "must be clean (ERROR:, file named, no traceback, nothing executed).",
+            "Trusted: reference validator written from the docs. Bound: <=2 simultaneous deviations; listed alphabet.",
+            "DESIGN.md §4 C15"),
+    "C19": ("translation_validation",
+            "exhaustive enumeration of group definitions, each compared with an independently produced explicit expansion (load graph + execution)",
+            "Every group definition with <=3 instances over the parameter alphabet is expanded by an independent reference expander; both "
+            "forms are loaded by the real TaskIndex and (<=2 instances) executed under the virtual kernel; graphs, spawn traces, output and "
+            "trees must be identical; accept/reject must agree.",
+            "Trusted: the reference expander (docs example). Bound: <=3 instances, 2-value alphabets.",
+            "DESIGN.md §4 C19"),
+    "C20": ("exploration",
+            "exhaustive enumeration of all strings up to a length bound against a hand-written recogniser",
+            "All 1.9M (21M thorough) strings of length <=6 (7) over an 11-symbol alphabet through is_name_valid/from_str/from_relative_str "
+            "vs a hand-written recogniser; round trip of every accepted identifier; ':name' resolution via TaskIndex; pairwise distinct "
+            "output directories via conductor.lib.path.where.",
+            "Trusted: the recogniser (no regex). Bound: length <=6/7, stated alphabet; trailing '/' before ':' is don't-care.",
+            "DESIGN.md §4 C20"),
     "C01": ("model_checking",
             "stateless deviation-bounded exploration of the real planner+executor under a virtual kernel; order monitor on the kernel event log",
             "For every small task graph (all shapes, listing orders, kinds, parallelizable flags, jobs) every completion order and "
